@@ -76,8 +76,12 @@ PROPS["C08"] = {
                   "come from the Rust side); num-bigint/num-rational are modelled by Lean Int/Rat; monotonicity in stake is "
                   "checked on generated pairs, not proved (goal listed).",
     "harness": [("harness", "c08")],
-    "anchors": ["mithril-stm/src/proof_system/concatenation/eligibility.rs"],
-    "rule": "case = (phi_f bits, ln bits, 512-bit draw, stake, total): 20 phi_f values incl. next-after-0 and 1-2^-53, totals up to 2^64-1, "
+    "anchors": ["mithril-stm/src/proof_system/concatenation/eligibility.rs", "mithril-stm/src/proof_system/concatenation/signer.rs",
+                "mithril-stm/src/proof_system/concatenation/single_signature.rs", "mithril-stm/src/signature_scheme/bls_multi_signature/signature.rs"],
+    "rule": "signer phase: for real registrations every index 0..m of every produced single signature is a case (draw = Blake2b-512('map', msg, "
+            "root, index, sigma) computed by the harness; observation = membership in the signature's index set), the produced signature must "
+            "verify and must be rejected with one lost index added; purity phase: one grid in several argument-sharing orders. "
+            "case = (phi_f bits, ln bits, 512-bit draw, stake, total): 20 phi_f values incl. next-after-0 and 1-2^-53, totals up to 2^64-1, "
             "stakes {0,1,t/3,t/2,t-1,t,random}, draws uniform / 0 / 2^512-1 / threshold*(1 +- 2^-j) with the threshold from a 1200-bit "
             "fixed-point exp, cross-stake probes, random mixes; non-trivial = everything except the two extreme draws; distinct request lines",
     "trivial_tags": ["extreme"],
